@@ -592,6 +592,20 @@ def lower8(ctx) -> List[Ob]:
         out.append(ok("LOWER-8", cg.qualname, key, ctx.where(cg, dec[0]), f"name built with the current level, then {counter} -= 1"))
     else:
         out.append(bad("LOWER-8", cg.qualname, key, ctx.where(cg, larm.node), f"the latch does not pop the nesting counter {counter} exactly once after using it: a loop that follows, or encloses, gets another loop's flag"))
+    # every other place that builds the flag name writes the flag of the innermost open loop, i.e. acts as that
+    # loop's latch: it has to pop the level as well
+    skeleton = rf[0][1]
+    known = {id(lf[0][0]), id(rf[0][0])}
+    for s_ in A.walk_no_nested(cg.node):
+        if isinstance(s_, ast.Assign) and isinstance(s_.value, ast.JoinedStr) and A.unparse(s_.value) == skeleton and id(s_) not in known:
+            key = "further writer of the loop flag: " + A.alpha_key(s_)
+            sn = cfg.node_of(s_)
+            decs = [d_ for d_ in A.walk_no_nested(cg.node) if isinstance(d_, ast.AugAssign) and A.unparse(d_.target) == counter and isinstance(d_.op, ast.Sub)]
+            popped = any(cfg.dominates(sn, cfg.node_of(d_)) and cfg.exit not in cfg.reachable(sn, avoid=lambda z, dn=cfg.node_of(d_): z is dn) for d_ in decs)
+            if popped:
+                out.append(ok("LOWER-8", cg.qualname, key, ctx.where(cg, s_), f"builds the flag name, then {counter} -= 1 on every path"))
+            else:
+                out.append(bad("LOWER-8", cg.qualname, key, ctx.where(cg, s_), f"this arm builds the flag name of the innermost open loop (it ends that loop) but does not pop the nesting counter {counter}: the latch of the enclosing loop then writes another loop's flag and the enclosing loop never terminates"))
     return out
 
 
